@@ -99,7 +99,8 @@ func looksLikeTLS(b []byte) bool {
 func RunPair(c *PairCase) *PairObs {
 	obs := &PairObs{}
 	log := &cbLog{}
-	scfg, ccfg := TLSConfigs()
+	_, ccfg := TLSConfigs()
+	scfg := ServerTLSVia(c.Srv.TLSVia)
 	var st, ct lime.Transport
 	auth, reg := log.callbacks(&c.Srv, func() lime.Transport { return st })
 	var srvTCP, cliTCP *lime.TCPConfig
